@@ -7,11 +7,13 @@ META = {
     "technique": "Coq invariant proof over all operation histories of the mirror-kernel model (authenticity + summary = "
                  "recomputation + chain invariant => every committed-header store entry carries a certificate by the chain-"
                  "prescribed validator set); differential correspondence with the real mirror + certificate monitor on its stores",
-    "level": "P/partial. Proved for every reachable state of the sequential mirror model: each committed-header store entry, and "
-             "the committing header (its newest entry), carries genuine precommits for exactly its height/round/hash by distinct "
-             "members of the chain-prescribed validator set with power >= ByzantineMajority. Partial: the header-replay path and "
-             "the hand-off to the state machine are not yet in the model (replay is exercised by the harness only); sums of "
-             "powers are modelled with their uint64 wrap; concurrency of callers is outside the model.",
+    "level": "P/partial. Proved for every reachable state of the sequential mirror model (proposed headers, prevotes, precommits and "
+             "replayed headers, any history): each committed-header store entry, and the committing header (its newest entry), carries "
+             "genuine precommits for exactly its height/round/hash by distinct members of the chain-prescribed validator set with power "
+             ">= ByzantineMajority of that set; the summary the commit decision reads is the recomputation from the view's own proofs. "
+             "Monitored on every run against the real mirror (certificate recomputed from the observed stores with the chain's sets). "
+             "Partial: the hand-off to the state machine is C08's model; sums of powers are modelled with their uint64 wrap; concurrent "
+             "callers are outside the model.",
     "note": "Trusted: Coq kernel; ideal signatures; correspondence harness on the real mirror; translator for thresholds and "
             "FindView. No axioms.",
     "design_ref": "DESIGN.md 4 (C01/C04/C05/C07)",
